@@ -9,6 +9,9 @@ import (
 	"encoding"
 	"encoding/json"
 	"reflect"
+	"sort"
+	"strings"
+	"unsafe"
 
 	"github.com/fxamacker/cbor/v2"
 	"fmt"
@@ -180,8 +183,125 @@ func Param(name string, def int) int {
 	return def
 }
 func Havoc(ptr interface{}, name string)     { panic("vsym.Havoc is engine-only; this harness needs a dedicated replay") }
-func Snapshot(x interface{}) interface{}     { panic("vsym.Snapshot is engine-only") }
-func Same(a, b interface{}) bool             { panic("vsym.Same is engine-only") }
+// Snapshot (native): deterministic deep dump following pointers; unexported fields included; map keys sorted;
+// error texts, function values, mutex state and channel contents are not compared (as in the engine).
+func Snapshot(x interface{}) interface{} {
+	var sb strings.Builder
+	dump(&sb, reflect.ValueOf(x), map[uintptr]int{}, 0)
+	return sb.String()
+}
+func Same(a, b interface{}) bool { return a.(string) == b.(string) }
+
+var errorIface = reflect.TypeOf((*error)(nil)).Elem()
+
+func dump(sb *strings.Builder, v reflect.Value, seen map[uintptr]int, depth int) {
+	if !v.IsValid() {
+		sb.WriteString("nil")
+		return
+	}
+	if depth > 60 {
+		sb.WriteString("deep")
+		return
+	}
+	if v.Kind() != reflect.Interface && v.Type().Implements(errorIface) && v.Kind() == reflect.Ptr && !v.IsNil() {
+		sb.WriteString("error")
+		return
+	}
+	switch v.Type().String() {
+	case "sync.Mutex", "sync.RWMutex":
+		sb.WriteString("mutex")
+		return
+	}
+	switch v.Kind() {
+	case reflect.Bool:
+		fmt.Fprint(sb, v.Bool())
+	case reflect.Int, reflect.Int8, reflect.Int16, reflect.Int32, reflect.Int64:
+		fmt.Fprint(sb, v.Int())
+	case reflect.Uint, reflect.Uint8, reflect.Uint16, reflect.Uint32, reflect.Uint64, reflect.Uintptr:
+		fmt.Fprint(sb, v.Uint())
+	case reflect.String:
+		fmt.Fprintf(sb, "%q", v.String())
+	case reflect.Ptr:
+		if v.IsNil() {
+			sb.WriteString("nil")
+			return
+		}
+		if id, ok := seen[v.Pointer()]; ok {
+			fmt.Fprintf(sb, "back%d", id)
+			return
+		}
+		seen[v.Pointer()] = len(seen)
+		sb.WriteString("&")
+		dump(sb, v.Elem(), seen, depth+1)
+	case reflect.Interface:
+		if v.IsNil() {
+			sb.WriteString("nil")
+			return
+		}
+		if v.Elem().Type().Implements(errorIface) {
+			sb.WriteString("error")
+			return
+		}
+		sb.WriteString("(" + v.Elem().Type().String() + ")")
+		dump(sb, v.Elem(), seen, depth+1)
+	case reflect.Struct:
+		sb.WriteString("{")
+		for i := 0; i < v.NumField(); i++ {
+			f := v.Field(i)
+			if !f.CanInterface() && f.CanAddr() {
+				f = reflect.NewAt(f.Type(), unsafe.Pointer(f.UnsafeAddr())).Elem()
+			}
+			dump(sb, f, seen, depth+1)
+			sb.WriteString(",")
+		}
+		sb.WriteString("}")
+	case reflect.Slice:
+		if v.IsNil() {
+			sb.WriteString("nil")
+			return
+		}
+		fallthrough
+	case reflect.Array:
+		sb.WriteString("[")
+		for i := 0; i < v.Len(); i++ {
+			dump(sb, v.Index(i), seen, depth+1)
+			sb.WriteString(",")
+		}
+		sb.WriteString("]")
+	case reflect.Map:
+		if v.IsNil() {
+			sb.WriteString("nil")
+			return
+		}
+		keys := v.MapKeys()
+		ks := make([]string, len(keys))
+		idx := map[string]reflect.Value{}
+		for i, k := range keys {
+			var kb strings.Builder
+			dump(&kb, k, seen, depth+1)
+			ks[i] = kb.String()
+			idx[ks[i]] = k
+		}
+		sort.Strings(ks)
+		sb.WriteString("map{")
+		for _, k := range ks {
+			sb.WriteString(k + ":")
+			dump(sb, v.MapIndex(idx[k]), seen, depth+1)
+			sb.WriteString(",")
+		}
+		sb.WriteString("}")
+	case reflect.Chan:
+		if v.IsNil() {
+			sb.WriteString("nil")
+		} else {
+			sb.WriteString("chan")
+		}
+	case reflect.Func:
+		sb.WriteString("func")
+	default:
+		fmt.Fprintf(sb, "<%s>", v.Kind())
+	}
+}
 func Stop()                                  { panic("VSYM-STOP") }
 func MergeBool(f func() bool) bool           { return f() }
 
